@@ -499,6 +499,29 @@ def clause_e(P, rep, rows1):
                                 zero_fill = False
                     if not zero_fill:
                         rec["bad"].append("padding in front of the %s fragment %s is not zero bytes" % (T, tag))
+                    # pass 1 counts a segment as occupying its memory only when it places something (the end moves); pass 2 may fill
+                    # the gap in front of a segment only on the same condition, i.e. where the fragment is known not to be empty
+                    pad_here = []
+                    for b2 in reversed(before):
+                        if is_fragment(b2):
+                            break
+                        pad_here.append(b2)
+                    if pad_here and len(sg) > 2:
+                        lsyms = {sy[1] for sy in sx.syms(sg[2])}
+                        if lsyms:
+                            envz = {"pass1.segments[i].address": 7, "pass1.segments[i+1].address": 64}
+                            for sy in {sy2 for e_, t_ in p.conds for sy2 in sx.syms(e_)}:
+                                if sy[1].endswith("#len"):
+                                    envz[sy[1]] = 6
+                            for nm in lsyms:
+                                envz[nm] = 0
+                            for a1, a2 in ((7, 64), (0, 0), (100, 3), (4096, 5000)):
+                                envz["pass1.segments[i].address"], envz["pass1.segments[i+1].address"] = a1, a2
+                                if L.conds_hold(p.conds, envz):
+                                    rec["bad"].append("the gap in front of the %s fragment %s is filled on a path where the fragment may be empty (a segment of "
+                                                      "directives that place nothing): pass 1 does not count such a segment as occupying, so the overlap "
+                                                      "and capacity checks and the labels behind it disagree with the image" % (T, tag))
+                                    break
                     # pad loops of the old shape leave a trip count we cannot sum: detect and use the loop bound instead
                     rng = [e for e in p.events if e[0] == 'range-next' and addr_name.split(".")[1] in e[2]]
                     checked = 0
